@@ -45,11 +45,15 @@ def run(ctx: Ctx):
     from .common import payload_value_truthiness
 
     payload_value_truthiness(ctx)
+    from .common import transform_pairing_table
+
+    transform_pairing_table(ctx)
 
 
 def enumeration(ctx: Ctx):
     cube = ctx.repo.cls("cube.py", "Cube")
     e = expand(ctx.repo, cube, "_slice_idxs", stop=lambda m: True)
+    enumeration_table(ctx, cube)
     ctx.check_expr("enumeration", "cube.py::Cube._slice_idxs", e, "range(1) if self.ndim < 3 and (not self._ca_as_0th) else range(len(self.dimensions[0].valid_elements))", "one partition per VALID element of the first dimension for 3-D / CA-as-0th responses, else exactly one")
     e = expand(ctx.repo, cube, "_ca_as_0th", stop=lambda m: True)
     ctx.check_expr("enumeration", "cube.py::Cube._ca_as_0th", e, "(self._cube_idx_arg == 0 or self.is_single_filter_col_cube) and len(self.dimension_types) > 0 and (self.dimension_types[0] == DT.CA)", "a categorical array is sliced per sub-variable only as the leading cube of a set (or a single-filter column)")
@@ -115,8 +119,9 @@ def factories(ctx: Ctx):
     sl = ctx.repo.cls("cubepart.py", "_Slice")
     e = expand(ctx.repo, sl, "_dimensions", stop=lambda m: True)
     ctx.check_expr("dispatch-dimensions", "cubepart.py::_Slice._dimensions", e, "tuple((dimension.apply_transforms(transforms) for dimension, transforms in zip(self._cube.dimensions[-2:], self._transform_dicts)))", "the slice's dimensions are the last two of the cube, with (rows, columns) transforms")
-    e = expand(ctx.repo, sl, "_transform_dicts", stop=lambda m: True)
-    ctx.check_expr("dispatch-dimensions", "cubepart.py::_Slice._transform_dicts", e, "(self._transforms_dict.get('rows_dimension', {}), self._transforms_dict.get('columns_dimension', {}))")
+    if ctx.repo.lookup(sl, "_transform_dicts") is not None:  # a private helper: its role is decided by `transform-pairing`
+        e = expand(ctx.repo, sl, "_transform_dicts", stop=lambda m: True)
+        ctx.check_expr("dispatch-dimensions", "cubepart.py::_Slice._transform_dicts", e, "(self._transforms_dict.get('rows_dimension', {}), self._transforms_dict.get('columns_dimension', {}))")
     e = expand(ctx.repo, sl, "_measures", stop=lambda m: True)
     ctx.check_expr("slice-pass-through", "cubepart.py::_Slice._measures", e, "SecondOrderMeasures(self._cube, self._dimensions, self._slice_idx)")
     som = ctx.repo.cls("matrix/measure.py", "SecondOrderMeasures")
@@ -324,6 +329,61 @@ def partition_sets_table(ctx: Ctx, cs):
     ctx.ob("cubeset.table", where, bad[:3] or f"{n} (cubes, partitions, flags) models", "set k = (k-th partition of cube 0, of cube 1, ...) for every k", not bad,
            "a multi-cube set of 3-D cubes loses the tables of every first-dimension element but the first")
     ctx.require_min("partition-set models", 9)
+
+
+def enumeration_table(ctx: Ctx, cube):
+    """`Cube._slice_idxs` evaluated (DECTAB) over (number of dimensions, CA-as-0th, every other boolean / small-int property
+    it consults): one index per valid element of the first dimension for a 3-D response AND for a CA-as-0th cube -
+    whatever its position in the cube set -, exactly one otherwise."""
+    from ..dectab import DTop, ModelInterp, Raises
+
+    m = ctx.repo.lookup(cube, "_slice_idxs")
+    where = "cube.py::Cube._slice_idxs [table]"
+    body = SUMMARIZER.summarize(m.node)
+    known = {"self.ndim", "self._ca_as_0th", "self.dimensions"}
+    extra = sorted({u(n) for n in ast.walk(body) if isinstance(n, ast.Attribute) and isinstance(n.value, ast.Name) and n.value.id == "self" and u(n) not in known})
+    if len(extra) > 2:
+        ctx.undecided("enumeration.table", where, f"consults {extra}", "range over the valid elements of the first dimension")
+        return
+    N = 4
+    bad, n = [], 0
+    try:
+        for ndim in (0, 1, 2, 3):
+            for ca0 in ((False, True) if ndim == 2 else (False,)):
+                for combo in range(3 ** len(extra)):
+                    vals, c = {}, combo
+                    for x in extra:
+                        vals[x] = (0, 1, True)[c % 3]
+                        c //= 3
+
+                    def atoms(x, ndim=ndim, ca0=ca0, vals=vals):
+                        t = u(x)
+                        if t == "self.ndim":
+                            return ndim
+                        if t == "self._ca_as_0th":
+                            return ca0
+                        if t == "self.dimensions[0].valid_elements":
+                            return tuple(range(N))
+                        if t in vals:
+                            return vals[t]
+                        raise KeyError
+
+                    want = tuple(range(N)) if (ndim >= 3 or ca0) else (0,)
+                    n += 1
+                    try:
+                        got = tuple(ModelInterp(atoms).ev(body))
+                    except Raises as r:
+                        bad.append(f"ndim={ndim} ca_as_0th={ca0} {vals or ''}: raises {r.etype}")
+                        continue
+                    if got != want:
+                        bad.append(f"ndim={ndim} ca_as_0th={ca0} {vals or ''}: {len(got)} partition(s), specified {len(want)}")
+    except DTop as t:
+        ctx.undecided("enumeration.table", where, "DECTAB: " + str(t), "range over the valid elements of the first dimension")
+        return
+    ctx.count("enumeration models", n)
+    ctx.ob("enumeration.table", where, bad[:3] or f"{n} (ndim, CA-as-0th, flags) models", "one partition per valid element of the first dimension for 3-D and CA-as-0th cubes, else one", not bad,
+           "a CA cube that is CA-as-0th by being a single-column filter at index >= 1 yields ONE strand: zip() across the cubes then drops every partition set but the first")
+    ctx.require_min("enumeration models", 5)
 
 
 def cubeset(ctx: Ctx):
